@@ -46,15 +46,19 @@ theorem putTx_sorted (c : Cfg) (o : Obj) (ar rr : Bool) (t t' : Tx) (h : putTx c
   split at h
   · split at h
     · cases h
-    · cases hp : t.put (dataKey c o.id) (.obj o) with
-      | error e => rw [hp] at h; simp at h
-      | ok t1 => rw [hp] at h; exact putIndexes_sorted c o none c.indexes t1 t' h (Tx.put_sorted hp hs)
+    · split at h
+      · cases h
+      · cases hp : t.put (dataKey c o.id) (.obj o) with
+        | error e => rw [hp] at h; simp at h
+        | ok t1 => rw [hp] at h; exact putIndexes_sorted c o none c.indexes t1 t' h (Tx.put_sorted hp hs)
   · cases h
   · split at h
     · cases h
-    · cases hp : t.put (dataKey c o.id) (.obj o) with
-      | error e => rw [hp] at h; simp at h
-      | ok t1 => rw [hp] at h; exact putIndexes_sorted c o _ c.indexes t1 t' h (Tx.put_sorted hp hs)
+    · split at h
+      · cases h
+      · cases hp : t.put (dataKey c o.id) (.obj o) with
+        | error e => rw [hp] at h; simp at h
+        | ok t1 => rw [hp] at h; exact putIndexes_sorted c o _ c.indexes t1 t' h (Tx.put_sorted hp hs)
 
 theorem delIndexes_sorted (c : Cfg) (o : Obj) :
     ∀ (L : List Index) (t t' : Tx), delIndexes c o L t = .ok t' → Sorted t.kv → Sorted t'.kv := by
